@@ -102,9 +102,9 @@ def gen_plan(rng, tier, index=0):
     r = rng.sub("hist")
     length = r.weighted([(r.randint(5, 20), 5), (r.randint(20, 60), 3), (r.randint(100, 200), 1)]
                         + ([(r.randint(400, 1500), 0.5)] if tier == "thorough" else []))
-    mix = r.choice([{"add_row": 6, "read": 2, "print": 1, "hold": 0.5, "noise": 1, "clone": 0.4},
-                    {"add_row": 3, "read": 3, "print": 3, "hold": 1, "noise": 2, "clone": 0.6},
-                    {"add_row": 10, "read": 0.5, "print": 0.2, "hold": 0.2, "noise": 0.2, "clone": 0.2}])
+    mix = r.choice([{"add_row": 6, "read": 2, "print": 1, "hold": 1.0, "noise": 1, "clone": 0.4, "restart": 0.3},
+                    {"add_row": 3, "read": 3, "print": 3, "hold": 1.5, "noise": 2, "clone": 0.6, "restart": 0.5},
+                    {"add_row": 10, "read": 0.5, "print": 0.2, "hold": 0.6, "noise": 0.2, "clone": 0.2, "restart": 0.1}])
     steps = []
     for _ in range(length):
         op = r.weighted(list(mix.items()))
@@ -115,6 +115,8 @@ def gen_plan(rng, tier, index=0):
             steps.append({"op": "read", "s": s, "how": r.choice(READ_KINDS)})
         elif op == "print":
             steps.append({"op": "print", "s": s, "how": r.choice(PRINT_KINDS)})
+        elif op == "restart":
+            steps.append({"op": "restart", "s": s})
         elif op == "clone":
             # checkpoint: from here on the caller works with a copy of the screen (pickle round trip / deepcopy)
             steps.append({"op": "clone", "s": s, "how": r.choice(["pickle", "deepcopy"])})
@@ -122,7 +124,7 @@ def gen_plan(rng, tier, index=0):
             steps.append({"op": r.choice(["hold", "check_hold"]), "s": s})
         else:
             k = r.weighted([("np_seed", 3), ("np_draw", 2), ("py_seed", 1), ("clock", 1), ("printopts", 2), ("gc", 0.5),
-                            ("np_default_rng", 1), ("other_screen", 2), ("numba_threads", 1), ("fork", 1)])
+                            ("np_default_rng", 1), ("other_screen", 2), ("numba_threads", 1), ("fork", 1), ("failing_call", 1)])
             if k == "other_screen":
                 steps.append({"noise": {"k": "other_screen", "like": s, "rows": r.randint(0, 3)}})
             elif k == "printopts":
@@ -213,7 +215,12 @@ def execute_extreme(plan, keep_log=False):
     prev = numpy.array(s.scrn, copy=True)
     with numpy.errstate(all="ignore"):
         for i in range(plan["rows"]):
-            cur = s.add_row()
+            try:
+                cur = s.add_row()
+            except Exception as e:
+                res.violate("raised", "C05:add_row-raised:%s:%s" % (kind, type(e).__name__),
+                            "%s screen %s: add_row #%d raised %s: %s" % (kind, p, i + 1, type(e).__name__, str(e)[:150]), i)
+                break
             res.steps += 1
             if cur.shape != (N, N):
                 res.violate("shape", "C05:exposed-shape-wrong:%s" % kind, "shape %s after %d rows (%s)" % (cur.shape, i + 1, p), i)
@@ -305,7 +312,10 @@ def _execute(plan, keep_log=False):
             res.steps += 1
             if "noise" in st:
                 op = st["noise"]
-                if op["k"] == "other_screen":
+                if op["k"] == "failing_call":
+                    screens.failing_call(op.get("v", 0))
+                    res.count("fault.noise.failing_call")
+                elif op["k"] == "other_screen":
                     sp = specs[op["like"] % n]
                     try:
                         o = screens.construct_infinite(sp["kind"], sp["params"], screens.make_seed(sp["seed"]) if "gen" not in str(sp["seed"]) else 5)
@@ -373,6 +383,8 @@ def _execute(plan, keep_log=False):
                     res.violate("return", "C05:add_row-return-differs-from-scrn:%s" % sp["kind"],
                                 "screen %d: add_row() returned something else than .scrn shows" % i, si)
                 model[i] = numpy.array(cur, copy=True)
+                if held[i] is None and si % 3 == 0:
+                    held[i] = (ret, numpy.array(ret, copy=True), rows[i])        # the caller keeps what add_row() returned
                 check_twin(i, si, "add_row")
                 continue
             consecutive[i] = 0
@@ -384,6 +396,30 @@ def _execute(plan, keep_log=False):
                 res.violate("raised", "C05:%s-raised:%s:%s" % (op, sp["kind"], type(e).__name__),
                             "screen %d: %s(%s) raised %s: %s" % (i, op, st["how"], type(e).__name__, str(e)[:200]), si)
                 log.add(si, op + "-raised", i, type(e).__name__)
+                continue
+            if op == "restart":
+                # the public make_initial_screen() starts the screen over (same seed: the same initial screen and rows)
+                if not hasattr(s, "make_initial_screen") or sp["seed"] == "none":
+                    log.add(si, "restart-skipped", i)
+                    continue
+                try:
+                    s.make_initial_screen()
+                    if twin[i] is not None:
+                        twin[i].make_initial_screen()
+                except Exception as e:
+                    res.inconclusive.append("restart raised %s" % type(e).__name__)
+                    alive[i] = False
+                    continue
+                rows[i] = 0
+                twin_rows[i] = 0
+                held[i] = None
+                res.count("op.restart")
+                cur = s.scrn
+                log.add(si, "restart", i, core.harr(cur))
+                if cur.shape != (N, N):
+                    res.violate("shape", "C05:exposed-shape-wrong:%s:after-restart" % sp["kind"], "screen %d: shape %s after make_initial_screen()" % (i, cur.shape), si)
+                model[i] = numpy.array(cur, copy=True)
+                check_twin(i, si, "restart")
                 continue
             if op == "clone":
                 import copy
@@ -428,6 +464,11 @@ def _execute(plan, keep_log=False):
                     view, copy_, at = held[i]
                     same = screens.abytes(view) == screens.abytes(copy_)
                     res.count("probe.held_view_still_valid" if same else "probe.held_view_changed_later")
+                    if not same:
+                        res.violate("aliasing", "C05:screen-returned-earlier-was-overwritten:%s" % sp["kind"],
+                                    "screen %d (%s %s): the array obtained from .scrn after %d rows no longer holds that screen after %d rows: "
+                                    "later steps wrote into an array the caller had been given" % (i, sp["kind"], sp["params"], at, rows[i]), si)
+                        held[i] = None
                     if rows[i] - at >= 3:
                         res.count("probe.read_of_held_view_after_3_rows")
                     log.add(si, "check_hold", i, same)     # informational: aliasing is not part of the property
@@ -442,6 +483,15 @@ def _execute(plan, keep_log=False):
                 res.violate("stream", "C05:random-stream-advanced-by-read:%s:%s" % (sp["kind"], op),
                             "screen %d: the injected generator's state changed during %s(%s)" % (i, op, st.get("how")), si)
             check_twin(i, si, op)
+        # whatever the caller still holds at the end must still be the screen it was when it was handed out
+        for i in range(n):
+            if alive[i] and held[i] is not None:
+                view, copy_, at = held[i]
+                if screens.abytes(view) != screens.abytes(copy_):
+                    res.count("probe.held_view_changed_later")
+                    res.violate("aliasing", "C05:screen-returned-earlier-was-overwritten:%s" % specs[i]["kind"],
+                                "screen %d (%s %s): the array handed out after %d rows no longer holds that screen after %d rows: later "
+                                "steps wrote into an array the caller had been given" % (i, specs[i]["kind"], specs[i]["params"], at, rows[i]), len(plan["steps"]))
         res.sim_time = env.advanced
 
     # distinctness: a read/print between two add_row steps of the same screen
